@@ -16,9 +16,9 @@ import (
 	"verif/ref/sidetree"
 
 	"github.com/trustbloc/sidetree-go/pkg/api/operation"
+	"github.com/trustbloc/sidetree-go/pkg/api/protocol"
 	"github.com/trustbloc/sidetree-go/pkg/commitment"
 	libjws "github.com/trustbloc/sidetree-go/pkg/jws"
-	"github.com/trustbloc/sidetree-go/pkg/api/protocol"
 	"github.com/trustbloc/sidetree-go/pkg/versions/1_0/operationparser"
 )
 
@@ -36,7 +36,7 @@ var patchKinds = map[string]string{
 	// (not in kindOrder) sixty numbers whose canonical text, 100000000000000000000, is five times as long as the spelling 1e20
 	// (not in kindOrder) strings with characters that JSON writers other than JCS escape (& < > U+2028 U+2029): sizes are defined on the canonical form
 	"html-characters": `{"action":"add-services","services":[{"id":"s9","type":"T","serviceEndpoint":"https://s.example/?a=1&b=2&c=<3>&d=e f "}]}`,
-	"json-numbers": `{"action":"ietf-json-patch","patches":[{"op":"add","path":"/n","value":[` + strings.TrimSuffix(strings.Repeat("1e20,", 60), ",") + `]}]}`,
+	"json-numbers":    `{"action":"ietf-json-patch","patches":[{"op":"add","path":"/n","value":[` + strings.TrimSuffix(strings.Repeat("1e20,", 60), ",") + `]}]}`,
 }
 
 var kindOrder = []string{"replace", "add-public-keys", "remove-public-keys", "add-services", "remove-services", "ietf-json-patch", "add-also-known-as", "remove-also-known-as"}
@@ -138,6 +138,11 @@ func Run(r *core.Run) {
 			// the same request as it may arrive on the wire: numbers in exponent form, so that the request is shorter than its own
 			// canonical delta (all size limits are defined on what they name: the request as received, the delta in canonical form)
 			addReq(fmt.Sprintf("valid/%s/html-characters", typ), typ, k, "html-characters", mk(typ, k, "html-characters", 18, 18, nil))
+			// the request as some clients send it, with a line break behind it / blanks before it: the maximum operation size is a limit on
+			// the request as received, and the returned operation carries those very bytes
+			padded := mk(typ, k, "add-services", 18, 18, nil)
+			reqs = append(reqs, reqCase{fmt.Sprintf("valid/%s/line-break-behind", typ), typ, k, "add-services", padded, append(ops.Bytes(padded), '\n')},
+				reqCase{fmt.Sprintf("valid/%s/blanks-before-and-behind", typ), typ, k, "add-services", padded, append(append([]byte(" \t"), ops.Bytes(padded)...), ' ', '\r', '\n')})
 			wire := mk(typ, k, "json-numbers", 18, 18, nil)
 			compact := bytes.ReplaceAll(ops.Bytes(wire), []byte("100000000000000000000"), []byte("1e20"))
 			reqs = append(reqs, reqCase{fmt.Sprintf("valid/%s/numbers-in-exponent-form", typ), typ, k, "json-numbers", wire, compact})
@@ -265,6 +270,7 @@ func Run(r *core.Run) {
 		}
 		if typ == "recover" {
 			mut("recovery-commitment-of-signing-key", v, func(m M) { resign(m, k, nil, func(p M) { p["recoveryCommitment"] = ops.Commitment(k, 18) }) })
+			mut("recovery-commitment-of-signing-key-sha512", v, func(m M) { resign(m, k, nil, func(p M) { p["recoveryCommitment"] = ops.Commitment(k, 19) }) })
 			mut("recovery-commitment-not-multihash", v, func(m M) { resign(m, k, nil, func(p M) { p["recoveryCommitment"] = "abc" }) })
 			mut("update-equals-recovery-commitment", v, func(m M) {
 				resign(m, k, nil, func(p M) { p["recoveryCommitment"] = m["delta"].(M)["updateCommitment"] })
